@@ -25,6 +25,7 @@ def check(ctx):
     reproject(ctx, P, view)
     capacity(ctx, P, view)
     rate(ctx, P, view)
+    stale_configuration(ctx, P, view)
     # PS departures are scheduled by the node's serverless end-of-service scan (shared instances): its filters and sentinel tests
     from . import c02
     c02.scan_rules(ctx, P)
@@ -76,6 +77,36 @@ def reproject(ctx, P, view):
     ob.ok("accept:flags")
     if "%s.with_server = False" % tok not in txt or "%s.arrival_date = self.now" % tok not in txt:
         ctx.violation(ob, "R7.ps-start", "PSNode.begin_service_if_possible_accept", "; ".join(txt), "ps-arrival-bookkeeping", "an arriving customer gets arrival_date = now and with_server = False before the capacity test", loc(fn))
+
+
+def stale_configuration(ctx, P, view):
+    """PSNode.__init__ calls Node.__init__ and only then turns the server count into the sharing capacity (c = inf).  Anything Node.__init__ derives from
+    self.c is computed for the ordinary node; a newly introduced cached predicate of that kind (`self.has_servers = not isinf(self.c)`) is wrong for
+    every PS node afterwards -- the serverless end-of-service scan is then never run and no customer ever leaves."""
+    from ..anchors import ANCHOR_NODE_ATTRS
+    ob = ctx.ob("PSCFG", "nothing newly cached in Node.__init__ from self.c / self.slotted survives PSNode.__init__'s rewrite of self.c")
+    ps = P.classes.get("PSNode")
+    if ps is None or "__init__" not in ps.methods:
+        ctx.unrecognised("PSCFG: PSNode.__init__ not found")
+        return
+    pinit = ps.methods["__init__"]
+    body = [s for s in pinit.body if not (isinstance(s, ast.Expr) and isinstance(s.value, ast.Constant))]
+    sup = [i for i, s in enumerate(body) if isinstance(s, ast.Expr) and isinstance(s.value, ast.Call) and "__init__" in unparse(s.value.func) and "super" in unparse(s.value.func)]
+    cw = [i for i, s in enumerate(body) if isinstance(s, ast.Assign) and any(unparse(t) == "self.c" for t in s.targets)]
+    ob.ok("PSNode.__init__", "super().__init__ at %s, self.c rewritten at %s" % (sup, cw))
+    if not sup or not cw or not (sup[0] < cw[0]):
+        return          # the rewrite precedes the base constructor (or is gone): nothing can go stale
+    rewritten_later = {t.attr for s in body[sup[0] + 1:] for x in ast.walk(s) if isinstance(x, ast.Assign) for t in x.targets if isinstance(t, ast.Attribute) and unparse(t.value) == "self"}
+    ninit = P.view("Node").method("__init__")[1]
+    for x in rules.walk(P, P.view("Node"), ninit):
+        if isinstance(x, ast.Assign):
+            for t in x.targets:
+                if isinstance(t, ast.Attribute) and unparse(t.value) == "self" and t.attr not in ANCHOR_NODE_ATTRS and t.attr not in rewritten_later:
+                    reads = {y.attr for y in ast.walk(x.value) if isinstance(y, ast.Attribute) and unparse(y.value) == "self"}
+                    if "c" in reads:
+                        ctx.violation(ob, "R5.derived", "Node.__init__", unparse(x)[:90], "cached-from-c-before-ps-rewrite",
+                                      "self.%s is computed from self.c in Node.__init__, but PSNode.__init__ sets self.c = inf afterwards and does not recompute it: at a "
+                                      "processor-sharing node it keeps the value for a node with server objects" % t.attr, loc(x))
 
 
 def capacity(ctx, P, view):
